@@ -1049,6 +1049,14 @@ def oracle(case, trace):
         if _without(oa, touched) != _without(ob, touched):
             bad("others-keep-order", k, i, t, "untouched names changed: %r -> %r" % (_without(ob, touched), _without(oa, touched)))
 
+        # a name leaves the order only when no layer has it any more, and is appended only when it was absent: so
+        # the names that were in the order and that some layer has after the operation stand as they stood
+        if glyphop and not held and not disabled:
+            kept = {n for n in ob if _anywhere(laya, n)}
+            if [x for x in oa if x in kept] != [x for x in ob if x in kept]:
+                bad("kept-in-place", k, i, t, "names that were in the order and that some layer still has left their place: %r -> %r" % (
+                    [x for x in ob if x in kept], [x for x in oa if x in kept]))
+
         if glyphop and (held or disabled):
             bump("glyphop." + ("disabled" if disabled else "held"))
         elif ok and k in ("newGlyph", "insertGlyph"):
